@@ -45,6 +45,57 @@ def closure_sessions(seed, n, more_calls=False):
     return out
 
 
+def spelling_histories(seed, n):
+    """Results must not depend on what the process evaluated before: 3-6 calls (on fresh and on shared names mappings, on the
+    shared and on a caching parser) in which numerically equal numbers are written differently (2.5 / 2.50, 1 / 1.0 / 1.00,
+    0 / -0 / 0.0, 4 / 2 * 2) and used as dict keys, subscripts, str() / join arguments, set members of `in`, sort keys."""
+    r = random.Random(seed)
+    nums = [['2.5', '2.50', '2.500', '5 / 2'], ['1', '1.0', '1.00', '2 - 1'], ['0', '0.0', '-0', '0.00', '1 - 1'], ['4', '4.0', '4.00', '2 * 2'], ['3', '3.0', '6 / 2']]
+    out = []
+    for _ in range(n):
+        g = r.choice(nums)
+        calls = []
+        for _ in range(r.randrange(3, 7)):
+            a, b = r.choice(g), r.choice(g)
+            src = r.choice(['keys({%s: 0})' % a, 'd = {%s: "x"}\nd[%s]' % (a, b), 'd = {}\nd[%s] = 1\nd[%s] = 2\nd' % (a, b), 'str(%s)' % a, '"" + %s' % a,
+                            'get({%s: 7}, %s)' % (a, b), '%s in {%s: 1}' % (a, b), '[%s, %s] | join(",")' % (a, b), 'del e[%s]\ne' % a, 'e[%s] = 5\ne' % a,
+                            'e[%s] += 1\ne' % a, 'sorted({%s: 1, "z": 2})' % a, '%s == %s' % (a, b), 'k = %s\n{k: k}' % a, 'pretty({%s: %s})' % (a, b),
+                            'items({%s: [%s]})' % (a, b), 'x = [%s, %s]\nindex_of(x, %s)' % (a, b, r.choice(g))])
+            calls.append({'src': src, 'n': r.choice([0, 0, 1]), 'max': 100})
+        out.append({'names': [{'e': {'1': 1, '2.5': 2, '0': 3}}, {'e': {'4': 1}}], 'host': {}, 'calls': calls, 'cache': r.random() < 0.3})
+    return out
+
+
+def cached_ast_sessions(seed, n):
+    """A caching parser, host-built ast_names entries obtained by parsing the SAME text several times (with a retaining cache: the
+    same tree object under several names), programs that mutate one binding and read the other, at budgets around the need."""
+    r = random.Random(seed)
+    out = []
+    for _ in range(n):
+        body = r.choice(['[1, 2]', '{"a": [1]}', '[[1], [2]]', 'v => [v]', '[1, 2] | map(v => v + 1)'])
+        prog = r.choice(['push(x, 3)\n[x, y]', 'x[0] = 9\ny', 'push(x, 1)\npush(y, 2)\n[x, y]', '[x, y]', 'x == y'] if '=>' not in body else ['[x(1), y(2)]', 'push(x(1), 5)\ny(1)'])
+        calls = [{'src': prog, 'n': 0, 'max': 1000, 'ast': [['x', body], ['y', body]], 'measure': True}]
+        for _ in range(r.choice([1, 2])):
+            calls.append({'src': prog, 'n': r.choice([0, 1]), 'max': None, 'ast': [['x', body], ['y', body]], 'delta': r.choice([-1, 0, 0, 1, 50])})
+        out.append({'names': [{}, {}], 'host': {}, 'calls': calls, 'cache': r.random() < 0.7})
+    return out
+
+
+def near_duplicate_name_sessions(seed, n):
+    """C18 on a caching parser: texts that differ only in the blanks inside a %...% name (different names!) evaluated one after
+    the other; list_names is recorded for every call and every name requested from the host must be among those it listed."""
+    r = random.Random(seed)
+    out = []
+    for _ in range(n):
+        a = r.choice(['first name', 'a b', 'x  y', 'p\tq', 'total amount'])
+        b = r.choice([a.replace(' ', '  '), a.replace(' ', '\t'), a.replace('  ', ' '), ' ' + a, a + ' '])
+        tmpl = r.choice(['%%%s%% + x', 'x = %%%s%%\nx', '[%%%s%%, x]', 'len("" + %%%s%%)'])
+        names = {'%' + a + '%': 2, '%' + b + '%': 5, 'x': 1}
+        calls = [{'src': tmpl % r.choice([a, b]), 'n': 0, 'max': 100} for _ in range(r.randrange(2, 5))]
+        out.append({'names': [names], 'host': {}, 'calls': calls, 'cache': r.random() < 0.8, 'list_names': True, 'listed_all': True})
+    return out
+
+
 def cached_repeat_sessions(seed, n):
     """The same syntax tree evaluated by several eval calls under different budgets: a caching parser given the same text
     again (first generously, then at need - 1, need, need + 1 ... of the FIRST run), and host-built ast_names lambdas whose
